@@ -635,6 +635,13 @@ impl Default for Kernel {
     }
 }
 
+#[cfg(feature = "verif-hooks")]
+impl Kernel {
+    pub(crate) fn verif_counts(&self) -> (usize, usize, usize) {
+        self.sockets.verif_counts()
+    }
+}
+
 #[cfg(test)]
 mod tests {
     use std::io::ErrorKind;
@@ -773,12 +780,5 @@ mod tests {
             k.get_option(s, SocketOptionKind::Broadcast).unwrap(),
             SocketOption::Broadcast(true)
         );
-    }
-}
-
-#[cfg(feature = "verif-hooks")]
-impl Kernel {
-    pub(crate) fn verif_counts(&self) -> (usize, usize, usize) {
-        self.sockets.verif_counts()
     }
 }
